@@ -238,6 +238,25 @@ def check_C03(tier, seed, t0):
     return ir_flow("C03", tier, seed, descs, HERM_NUM, models, COMMON_ASSUME, t0, neg_models=IR_NEG)
 
 
+# fixed descriptors (independent of VERIF_SEED) on which the unchanged tree is known to violate C04: see known_findings.json
+FIXED_C04 = [
+    "cls=sym;ty=d;n=16;nev=4;ncv=15;seed=624719;hist=N,I,C0;c04=1;meas=0;mconv=0;fam=presc;spec=evenint;args0=4:500:-10:7",
+    "cls=sym;ty=d;n=19;nev=2;ncv=6;seed=448915;hist=N,I,C0;c04=1;meas=0;mconv=0;fam=presc;spec=evenint;args0=4:500:-10:3",
+]
+
+
+def check_C04(tier, seed, t0):
+    rng = random.Random(4400 + seed)
+    descs = P.selection_descs(rng, n_of(tier, 165, 2200), types=("d",) if tier == "quick" else ("d", "d", "l", "f"))
+    descs += FIXED_C04
+    own = ["ReturnedIsWanted", "ReturnedInPrescribedSpectrum", "ReturnedDistinct"]
+    models = [("MC_Transform.tla", "Transform.cfg", 4)]
+    return ir_flow("C04", tier, seed, descs, own, models, COMMON_ASSUME + [
+        "prescribed (Gaussian-)integer spectra realised by orthogonal similarity / L D L' pencils in long double and cast; the returned values are matched to the prescribed ones by nearest distance (measured, bounded by the spec)",
+        "cases in which the rule does not determine a unique wanted set (ties at the boundary) and runs that did not report Successful are counted, not judged",
+        "Davidson, partial SVD and LOBPCG selection clauses are decided in the C15/C16/C17 checks"], t0)
+
+
 def check_C07(tier, seed, t0):
     rng = random.Random(4000 + seed)
     descs = P.herm_basic(rng, n_of(tier, 60, 800), types=types_for(tier), meas=2, nmax=n_of(tier, 36, 90))
@@ -318,7 +337,7 @@ def check_C14(tier, seed, t0):
         level="fault_enumeration" if False else "model_checking")
 
 
-CHECKS = {"C03": check_C03, "C06": check_C06, "C14": check_C14, "C18": check_C18, "C19": check_C19, "C05": check_C05, "C01": check_C01, "C02": check_C02, "C07": check_C07, "C13": check_C13}
+CHECKS = {"C03": check_C03, "C04": check_C04, "C06": check_C06, "C14": check_C14, "C18": check_C18, "C19": check_C19, "C05": check_C05, "C01": check_C01, "C02": check_C02, "C07": check_C07, "C13": check_C13}
 
 
 def main():
